@@ -5,6 +5,10 @@ from ..core import Ctx
 
 
 def run_for(ctx: Ctx, prop: str) -> None:
+    from ..core import Alias
+
+    if isinstance(ctx, Alias):
+        return  # typestate rules are reported under their own property only
     try:
         from .. import typestate
     except ImportError:
